@@ -18,7 +18,7 @@ static const uint32_t NORETRY = 1u << 31; // flag in Op::mapfail: a failed reque
 static const int NBULK = 6144; // extra slots used by the bulk op (fills whole slabs)
 
 static int P_maps, P_unmaps, P_slab_first, P_slab_additional, P_large, P_realloc_inplace, P_realloc_moved, P_realloc_map, P_xfree, P_handover, P_take_fail, P_contended_construct, P_remote_free_into_head,
-	P_relink_full, P_mapfail_injected, P_mapfail_while_other_holds, P_skipped, P_poison_redundant, P_unpoison_redundant, P_churn_iters, P_arena_exhausted, P_lock_contention, P_recovered, P_pages_sampled, P_unaligned_slack, P_bulk_blocks, P_slab_filled, P_long_churn, P_granule_runs, P_burst_fail, P_multi_pages_checked;
+	P_relink_full, P_mapfail_injected, P_mapfail_while_other_holds, P_skipped, P_poison_redundant, P_unpoison_redundant, P_churn_iters, P_arena_exhausted, P_lock_contention, P_recovered, P_pages_sampled, P_unaligned_slack, P_bulk_blocks, P_slab_filled, P_long_churn, P_granule_runs, P_burst_fail, P_multi_pages_checked, P_reuse_checked;
 
 struct Region { uint64_t base, len; int kind; /*0 slab,1 large*/ int64_t pages; int by_task, by_op; uint64_t cls; bool counted; int64_t live = 0; int last_free_task = 0; uint64_t last_free_step = 0; };
 struct Block { char *ptr = nullptr; size_t req = 0, reported = 0; uint64_t pat = 0; int owner = 0; int alloc_task = 0; bool live = false, offered = false, inflight = false, busy = false; VC chan; };
@@ -62,7 +62,7 @@ struct SlabEngine : Engine {
 		P_remote_free_into_head = probe_id("free_into_slab_another_task_allocates_from"); P_relink_full = probe_id("full_slab_relinked_by_free"); P_mapfail_injected = probe_id("map_failures_injected");
 		P_mapfail_while_other_holds = probe_id("map_failure_while_other_task_holds_a_pool_lock"); P_skipped = probe_id("ops_skipped_precondition"); P_poison_redundant = probe_id("kasan_strict:poison_of_poisoned_byte");
 		P_unpoison_redundant = probe_id("kasan_strict:unpoison_of_unpoisoned_byte"); P_churn_iters = probe_id("churn_iterations"); P_arena_exhausted = probe_id("arena_exhausted"); P_lock_contention = probe_id("alloc_or_free_overlapping_another_task's");
-		P_recovered = probe_id("retry_after_map_failure_succeeded"); P_pages_sampled = probe_id("used_pages_sampled"); P_unaligned_slack = probe_id("unaligned_map_nonzero_residue"); P_bulk_blocks = probe_id("bulk_blocks_allocated"); P_slab_filled = probe_id("slab_filled_completely(second_slab_of_class_mapped_in_bulk)"); P_long_churn = probe_id("long_churn_over_65536_allocations"); P_granule_runs = probe_id("runs_with_8_byte_granule_poison_shadow"); P_burst_fail = probe_id("map_failure_inside_a_burst_of_consecutive_failures"); P_multi_pages_checked = probe_id("used_pages_checked_against_measured_slab_sizes_at_end");
+		P_recovered = probe_id("retry_after_map_failure_succeeded"); P_pages_sampled = probe_id("used_pages_sampled"); P_unaligned_slack = probe_id("unaligned_map_nonzero_residue"); P_bulk_blocks = probe_id("bulk_blocks_allocated"); P_slab_filled = probe_id("slab_filled_completely(second_slab_of_class_mapped_in_bulk)"); P_long_churn = probe_id("long_churn_over_65536_allocations"); P_granule_runs = probe_id("runs_with_8_byte_granule_poison_shadow"); P_burst_fail = probe_id("map_failure_inside_a_burst_of_consecutive_failures"); P_multi_pages_checked = probe_id("used_pages_checked_against_measured_slab_sizes_at_end"); P_reuse_checked = probe_id("end_of_run_reuse_test(all_slab_capacity_refilled_without_map)");
 	}
 	const char *name() override { return "simslab"; }
 	const char *op_name(int k) override { return k >= 0 && k < OP_N ? op_names[k] : "?"; }
@@ -213,7 +213,8 @@ struct SlabEngine : Engine {
 			}
 			hbase += nh;
 		}
-		if (mtx == MT_TICKET && rng.chance(1, 3)) p.knobs["age"] = (int64_t)(0xFFFFFFFFu - (uint32_t)rng.below(6)); // aged bucket locks: counters wrap during the run
+		if (mtx == MT_TICKET && rng.chance(1, 3)) p.knobs["age"] = (int64_t)((rng.chance(1, 2) ? 0xFFFFFFFFu : 0x7FFFFFFFu) - (uint32_t)rng.below(6)); // aged bucket locks: counters wrap during the run
+		if (rng.chance(1, 5)) p.knobs["reuse_check"] = 1; // end-of-run reuse test
 		if (P.poison && rng.chance(1, 2)) p.knobs["granule"] = 1; // KASAN-like policy: poison shadow with 8-byte granules
 		pick_strategy(rng, p, mtx != MT_SIM && prof == "C05");
 	}
@@ -305,7 +306,9 @@ struct SlabEngine : Engine {
 		// fresh memory: garbage, poisoned (poison configs), no access history
 		char *p = arena + found;
 		uint64_t g = fill_rng().next();
-		if (c.place && (splitmix(c.place, 999 + (uint64_t)j) & 7) == 0) memset(p, 0, len); // zero pages, like a fresh mmap
+		uint64_t fm = c.place ? splitmix(c.place, 999 + (uint64_t)j) & 7 : 2;
+		if (fm == 0) memset(p, 0, len);          // zero pages, like a fresh mmap
+		else if (fm == 1) memset(p, 0xFF, len);  // all-ones: an uninitialised counter that is then incremented wraps to zero
 		else for (size_t i = 0; i + 8 <= len; i += 8) { uint64_t v = g ^ (i * 0x9e3779b97f4a7c15ull); memcpy(p + i, &v, 8); }
 		if (pi.poison) memset(pshadow + found, 1, len);
 		shadow_reset(p, len);
@@ -943,6 +946,28 @@ struct SlabEngine : Engine {
 		if (all_counted && used != expect) violation("page_counter", "after all blocks were freed numUsedPages() = %lld but the regions still mapped had added %lld", (long long)used, (long long)expect);
 		if (used < 0 || used > (int64_t)(arena_size / pi.pagesize)) violation("page_counter", "numUsedPages() = %lld at the end: underflow or drift", (long long)used);
 		for (int t = 1; t < MAXT; t++) if (locks_held(t) != 0) violation("mapfail_lock_left", "task %d finished while holding %d pool lock(s)", t, locks_held(t));
+		// Reuse test (some runs): every slab still mapped is completely free now, so refilling each class up to the capacity of
+		// its slabs must not map anything — a slab the pool can no longer reach (orphaned in a refill race, lost on a failure
+		// path) shows up as an extra map here. Judged sequentially, after all tasks have finished.
+		if (plan().knob("reuse_check", 0)) {
+			std::map<uint64_t, int64_t> slabs; bool known = true;
+			for (auto &r : regions) { if (r.kind != 0 || !r.cls) { known = false; break; } slabs[r.cls]++; }
+			int64_t total = 0; if (known) for (auto &kv : slabs) { int64_t b = blocks_per_slab(kv.first); if (b <= 0) { known = false; break; } total += b * kv.second; }
+			if (known && total > 0 && total <= 1500) {
+				probe(P_reuse_checked);
+				bool sgl2 = single; single = false; // (page deltas of this phase are not judged)
+				int slot = NH;
+				for (auto &kv : slabs) {
+					int64_t want = blocks_per_slab(kv.first) * kv.second;
+					uint64_t maps0 = total_maps;
+					for (int64_t i = 0; i < want && slot < NH + NBULK; i++, slot++) { Op a; a.kind = OP_ALLOC; cur[0] = Cur(); if (!do_alloc(0, a, slot, (size_t)kv.first, false)) break; }
+					if (total_maps != maps0)
+						violation("footprint", "class %llu: %lld slab(s) are mapped and completely free, yet allocating their capacity (%lld blocks) mapped %llu more region(s): slab memory has become unreachable", (unsigned long long)kv.first, (long long)kv.second, (long long)want, (unsigned long long)(total_maps - maps0));
+				}
+				for (int h = NH; h < slot; h++) if (blk[h].live) { Op a; a.kind = OP_FREE; cur[0] = Cur(); do_free(0, a, h, 0, 0); }
+				single = sgl2;
+			}
+		}
 	}
 
 	// ------------------------------------------------------------ C04: enumerate failure positions
